@@ -10,8 +10,8 @@ from .. import realdb
 
 SYS = {
     "alzr": {"obj": "alzr:tangent", "binary": True, "phases": ["AL3ZR"], "x": [(2e-4, 8e-3)], "T": (600.0, 850.0)},
-    "almgsi": {"obj": "almgsi:tangent", "binary": False, "phases": ["MGSI_B_P", "MG5SI6_B_DP", "B_PRIME_L", "U1_PHASE", "U2_PHASE"], "x": [(0.003, 0.012), (0.003, 0.012)], "T": (420.0, 540.0)},
-    "nicral": {"obj": "nicral:tangent", "binary": False, "phases": ["FCC_L12"], "x": [(0.04, 0.11), (0.07, 0.13)], "T": (950.0, 1200.0)},
+    "almgsi": {"obj": "almgsi:tangent", "binary": False, "phases": ["MGSI_B_P", "MG5SI6_B_DP", "B_PRIME_L", "U1_PHASE", "U2_PHASE"], "x": [(0.003, 0.012), (0.003, 0.012)], "T": (420.0, 540.0), "T_hot": (600.0, 800.0)},
+    "nicral": {"obj": "nicral:tangent", "binary": False, "phases": ["FCC_L12"], "x": [(0.04, 0.11), (0.07, 0.13)], "T": (950.0, 1200.0), "T_hot": (1250.0, 1400.0)},
     # the sampling method has no warm start (the mechanism of KF-C09-4): with the sample cache retained it must be history independent,
     # also across temperature jumps into the undersaturated range (up to 1350 K)
     "nicral_sampling": {"obj": "nicral:sampling", "binary": False, "phases": ["FCC_L12"], "x": [(0.04, 0.11), (0.07, 0.13)], "T": (950.0, 1350.0)},
@@ -132,19 +132,30 @@ def check_sequence(case):
             elif kind == "growth" and not cfg["binary"]:
                 i = 0
                 REF.clearCache()
-                rdg, _ = REF.getDrivingForce(x[i].copy(), float(T[i]), precPhase=ph, removeCache=True)
-                if rdg is None or not np.isfinite(rdg) or float(rdg) <= 0:
+                rdg, rxp = REF.getDrivingForce(x[i].copy(), float(T[i]), precPhase=ph, removeCache=True)
+                sd = None
+                if op.get("sd") and rdg is not None and np.isfinite(rdg) and rxp is not None and np.all(np.isfinite(np.atleast_1d(rxp))):
+                    # the way the precipitation model asks: with the nucleus composition of the driving-force calculation as search
+                    # direction, also for a dissolving precipitate (matrix outside the two-phase field, driving force negative)
+                    sd = np.atleast_1d(np.asarray(rxp, dtype=float)).copy()
+                    out.label("growth_with_search_direction" + ("_undersaturated" if float(rdg) <= 0 else ""))
+                elif rdg is None or not np.isfinite(rdg) or float(rdg) <= 0:
                     out.label("growth_outside_two_phase")
                     continue
+                kwsd = {} if sd is None else {"searchDir": sd.copy()}
                 R = np.array(op["R"], dtype=float)
                 gE = np.array(op["gE"], dtype=float)
                 R0, g0 = R.copy(), gE.copy()
                 xi = x[i].copy()
-                a = W.getGrowthAndInterfacialComposition(xi, float(T[i]), float(rdg), R, gE, precPhase=ph, removeCache=rc)
+                a = W.getGrowthAndInterfacialComposition(xi, float(T[i]), float(rdg), R, gE, precPhase=ph, removeCache=rc, **kwsd)
+                if sd is not None and kwsd["searchDir"].tobytes() != sd.tobytes():
+                    out.fail("argument_modified", "op %d getGrowthAndInterfacialComposition modified its search direction" % k)
                 if R.tobytes() != R0.tobytes() or gE.tobytes() != g0.tobytes() or xi.tobytes() != x[i].tobytes():
                     out.fail("argument_modified", "op %d getGrowthAndInterfacialComposition modified its arguments" % k)
                 REF.clearCache()
-                b = REF.getGrowthAndInterfacialComposition(x[i].copy(), float(T[i]), float(rdg), R0.copy(), g0.copy(), precPhase=ph, removeCache=True)
+                b = REF.getGrowthAndInterfacialComposition(x[i].copy(), float(T[i]), float(rdg), R0.copy(), g0.copy(), precPhase=ph, removeCache=True, **({} if sd is None else {"searchDir": sd.copy()}))
+                if (a is None) != (b is None) and sd is not None and not ordered:
+                    out.fail("growth_history_dependent", "%s op %d (%s, removeCache=%s, search direction %r): %s with history, %s cache-free" % (case["system"], k, ph, rc, sd.tolist(), "no result" if a is None else "a result", "no result" if b is None else "a result"), removeCache=bool(rc))
                 if a is None or b is None:
                     out.label("growth_none")
                     continue
@@ -199,6 +210,10 @@ def _seq(draw):
         if kind in ("ic", "icm"):
             op["g"] = sorted(10 ** draw(st.floats(0, 4.3)) for _ in range(draw(st.integers(1, 5))))
         if kind == "growth":
+            if draw(st.booleans()):
+                op["sd"] = True
+                if draw(st.booleans()) and "T_hot" in cfg:      # above the solvus: the precipitate dissolves, the tie line is searched along the direction
+                    op["T"] = [draw(st.floats(*cfg["T_hot"]))]
             m = draw(st.integers(1, 4))
             op["R"] = sorted(10 ** draw(st.floats(-9.3, -7.5)) for _ in range(m))
             op["gE"] = [2 * 0.1 * 1e-5 / r for r in op["R"]]
